@@ -73,6 +73,12 @@ pub struct WorldSpec {
     /// seconds after that many readings (shim seam FSFAULT_CLOCK). An empty entry is a correct clock.
     #[serde(default)]
     pub clock_plan: Vec<String>,
+    /// k > 0: every third command file (those whose index is congruent to k mod 3) is not a link to the helper
+    /// binary but a shell script that execs it under its own name, with the interpreter line spelled the k-th way
+    /// (`#!/bin/bash`, `#! /bin/bash`, `#!/bin/bash<TAB>-e`, `#!/usr/bin/env bash`): commands are scripts in real
+    /// repositories, and the kernel accepts all of these spellings
+    #[serde(default)]
+    pub script_wrappers: u8,
 }
 
 impl WorldSpec {
@@ -333,7 +339,7 @@ impl World {
             std::fs::create_dir_all(root.join(&t.path)).map_err(|e| e.to_string())?;
             w.write_file(&format!("{}/file.txt", t.path), &format!("{}\n", t.path))?;
         }
-        for cf in &spec.cmd_files {
+        for (cf_index, cf) in spec.cmd_files.iter().enumerate() {
             let p = root.join(&cf.rel);
             if let Some(d) = p.parent() {
                 std::fs::create_dir_all(d).map_err(|e| e.to_string())?;
@@ -344,7 +350,15 @@ impl World {
             } else if cf.exec {
                 // one file may serve several targets (a shared script named in their `definitions`)
                 if std::fs::symlink_metadata(&p).is_err() {
-                    std::os::unix::fs::symlink(&helper, &p).map_err(|e| e.to_string())?;
+                    let k = spec.script_wrappers as usize;
+                    if k > 0 && cf_index % 3 == k % 3 {
+                        let shebang = ["#!/bin/bash", "#! /bin/bash", "#!/bin/bash\t-e", "#!/usr/bin/env bash"][(k - 1) % 4];
+                        let body = format!("{}\nexec -a \"$0\" '{}' \"$@\"\n", shebang, helper.display());
+                        std::fs::write(&p, body).map_err(|e| e.to_string())?;
+                        std::fs::set_permissions(&p, std::fs::Permissions::from_mode(0o755)).map_err(|e| e.to_string())?;
+                    } else {
+                        std::os::unix::fs::symlink(&helper, &p).map_err(|e| e.to_string())?;
+                    }
                 }
             } else {
                 std::fs::write(&p, b"#!/bin/false\n").map_err(|e| e.to_string())?;
